@@ -7,7 +7,18 @@ applied twice) for every interleaving and every cut position.  Simulated behavio
 inside and outside the target's MULTI - are replayed lock-step into the real code: a cut kills the
 target connections, the REAL checkpoint.LoadCheckpoint reads what the REAL sender stored, a new
 parser/sender pair resumes at offset+1 in the recorded database; every per-step snapshot (= every
-enumerated cut point) is judged by TLC."""
+enumerated cut point) is judged by TLC.
+
+End to end: System.tla composes the whole life cycle (PSYNC, receive, checkpointed batches, connection
+drops with re-PSYNC at the next byte, crash + restart from the stored checkpoint; ExactlyOnce, CkptAtomic,
+NeverAhead, ResumeExact, completion under fairness; the deviation "checkpoint written after the data"
+must violate it).  Complete runs of the REAL DbSyncer.Sync() (scripted source with drops inside
+commands, pre-stored checkpoints, model Redis target) log every transaction the target executes;
+SystemTrace.tla judges each one: its writes are exactly the stream commands between the previous and
+the new checkpoint, which is a command boundary within what the tool had received."""
+import json
+import re
+
 from checks.incr_common import run_family
 
 PID = "C04"
@@ -21,8 +32,67 @@ FAMILIES = [
 ]
 
 
+def end_to_end(sc, verdict, thorough, seed):
+    """System.tla (the whole life cycle: PSYNC, receive, checkpointed batches, drops + re-PSYNC, crash + restart) model-checked,
+    and complete DbSyncer.Sync() runs validated transaction by transaction against its contract (SystemTrace.tla)."""
+    import concurrent.futures
+    import random
+    import vlib
+    from vlib import Infra, log
+    states = trans = 0
+    cmds = []
+    for cfg in ["System.cfg"] + (["System_t.cfg"] if thorough else []):
+        r = vlib.tlc(sc, "System", cfg, workers=8, timeout=3000)
+        if r.rc != 0:
+            raise Infra("System model check failed on %s (rc=%s, %s)\n%s" % (cfg, r.rc, r.violated, r.out[-2500:]))
+        states += r.distinct
+        trans += r.generated
+        cmds.append(r.cmd)
+    r = vlib.tlc(sc, "System", "System_dev.cfg", workers=4, timeout=600)
+    if not r.violated:
+        raise Infra("System.tla: writing the checkpoint in a separate step no longer violates the contract - the model is vacuous")
+    rnd = random.Random(seed * 31 + 7)
+    scen = []
+    for i in range(24 if thorough else 6):
+        ncmd = rnd.choice([20, 30, 45])
+        scen.append({"seed": rnd.randrange(1 << 30), "start": rnd.choice([0, 1000, 2 ** 31 + 5, 2 ** 40]), "commands": ncmd,
+                     "idles": sorted(rnd.sample(range(2, ncmd - 2), 1)), "idle_ms": 1300, "drops": sorted(rnd.sample(range(3, ncmd - 3), rnd.choice([0, 1, 2]))),
+                     "drop_skew": rnd.choice([0, 5, 13]), "refuse": 0, "frags": rnd.choice([[], [7], [1000]]), "quiet_ms": 2600, "budget_ms": 40000,
+                     "resume_at": (rnd.randrange(2, 8) if i % 3 == 2 else 0), "trace": sc.path("e2e-%d.ndjson" % i)})
+
+    def one(s):
+        return vlib.run_vdrv(["offsets"], stdin=json.dumps(s), timeout=300)
+    with concurrent.futures.ThreadPoolExecutor(max_workers=12) as ex:
+        results = list(ex.map(one, scen))
+    rows = []
+    owner = []
+    for s, (rc, out, err) in zip(scen, results):
+        if rc != 0:
+            raise Infra("vdrv offsets failed rc=%s: %s" % (rc, err[-2000:]))
+        part = vlib.read_ndjson(s["trace"])
+        rows += part
+        owner += [s] * len(part)
+    vlib.write_ndjson(sc.path("trace.ndjson"), rows)
+    rt = vlib.tlc(sc, "SystemTrace", "SystemTrace.cfg", workers=1, timeout=1800)
+    if rt.rc != 0 or rt.depth - 1 != len(rows):
+        raise Infra("TLC failed on the end-to-end trace (rc=%s, judged %d of %d):\n%s" % (rt.rc, rt.depth - 1, len(rows), rt.out[-2000:]))
+    for ln in [int(x) for x in re.findall(r'<<"REJECT", (\d+)>>', rt.out)]:
+        ev = rows[ln - 1]
+        s = owner[ln - 1]
+        prev = [x for x in rows[:ln - 1] if x["e"] == "tgt-exec"][-3:]
+        verdict.violation({"kind": "e2e-" + ev["e"], "drops": len(s["drops"]), "resumed": s["resume_at"] > 0, "outside_tx": ev.get("ckpt") == -1},
+                          "end-to-end Sync(): %s violates the life-cycle contract (transaction = exactly the commands between the previous and the new checkpoint, "
+                          "within what was received; re-PSYNC at the next byte): %s; previous transactions %s; scenario %s" % (
+                              ev["e"], {k: v for k, v in ev.items() if k != "seq"}, [(x["pushes"], x["ckpt"]) for x in prev],
+                              {k: s[k] for k in ("start", "commands", "drops", "drop_skew", "frags", "resume_at")}),
+                          {"family": "offsets", "scenario": s})
+    ntx = sum(1 for x in rows if x["e"] == "tgt-exec")
+    log("[e2e] %d complete Sync() runs, %d target transactions judged by SystemTrace" % (len(scen), ntx))
+    return states + rt.distinct, trans + rt.generated, {"e2e_runs": len(scen), "e2e_transactions": ntx}, cmds
+
+
 def run(tier, seed, replay=None):
-    return run_family(PID, tier, seed, FAMILIES, ["InOrderExactlyOnce", "NoMarkers", "CkptAtomic", "CkptHasRunId", "Complete"],
+    return run_family(PID, tier, seed, FAMILIES, extra=end_to_end, invariants= ["InOrderExactlyOnce", "NoMarkers", "CkptAtomic", "CkptHasRunId", "Complete"],
                       assumptions=["offsets are exact byte positions with a static base: the moving acknowledgement base of a live source connection is C08's subject",
                                    "a cut = all target connections closed at a command boundary of the target's input (bytes of a partially received command are not modelled)",
                                    "mredis stands in for the target Redis"])
